@@ -143,6 +143,11 @@ def strategy(tier):
                 d['name'] = draw(st.sampled_from(['o0', 'o2', 'n0']))
                 d['p'] = draw(st.sampled_from(['v', 's', 'w']))
                 d['v'] = draw(st.sampled_from(VALUES))
+                if draw(st.floats(0, 1)) < 0.4:
+                    # the inline parameter and a table of further parameters on the same step
+                    d['name'], d['p'] = 'o0', 'v'
+                    d['v'] = draw(st.sampled_from(['1', '2', '0']))
+                    d['table'] = [['w', draw(st.sampled_from(["'a'", "'b'"]))]]
             elif k == 'fired_table':
                 d['name'] = 'o0'
                 d['table'] = [['v', draw(st.sampled_from(['1', '2']))],
@@ -217,7 +222,7 @@ def then_text(t):
     if k in simple:
         return simple[k] % t['name'], None
     if k == 'fired_with':
-        return 'event %s is fired with %s=%s' % (t['name'], t['p'], t['v']), None
+        return 'event %s is fired with %s=%s' % (t['name'], t['p'], t['v']), t.get('table')
     if k == 'fired_table':
         return 'event %s is fired' % t['name'], t['table']
     if k == 'no_event':
